@@ -528,4 +528,14 @@ example : (runLatt cfgLat exLat [2, 4, 0, 3, 1] 1 [1, 5, 4, 1, 2, 0, 5, 4, 0, 5,
     some ("0,2,0,2,0,0,0,2,0,0,0,0,0,0,2,2,0,0,0,0,0,0,2,0,0", 3, []) := by
   decide +kernel
 
+/-- `latmio_und_connected` (undirected latticiser: permutation, lattice guard, connectivity test), recorded from a real
+run (seed 250): 6 rewirings -/
+def cfgLatUnd : Cfg 6 := { und := true, conn := true, lat := some (defaultD 6), mask := none, src := .tril, attDen := some 15 }
+example : (runLatt cfgLatUnd exRing [3, 4, 1, 0, 2, 5] 1 [2, 3, 8577281397827444, 1, 1, 3, 5, 1, 6964326427204553, 5, 2,
+    4552360554853734, 0, 0, 6, 5188397916458668, 2, 2, 2, 4, 4, 2, 1, 3, 0, 4, 8434841016714293, 0, 6, 7180930707599627, 4, 4,
+    5, 5131451877229496, 2, 0, 0, 6, 6890572167477813, 4, 3, 6, 0, 6336422562378967, 2, 4, 1, 5, 930006947560358, 5, 3,
+    4289450393412178, 5, 0, 3187270376362732]).toOption.map (fun r => (showMat r.1, r.2.2.1, r.2.2.2)) =
+    some ("0,1,1,1,0,0,1,0,1,0,0,0,1,1,0,0,0,0,1,0,0,0,1,1,0,0,0,1,0,1,0,0,0,1,1,0", 6, []) := by
+  decide +kernel
+
 end Bct.C01
